@@ -73,6 +73,15 @@ theorem issued_invocations (net : Net V) (c : Nat) (r : CallRec V) (j : Nat) :
     ((net.upd c (fun cl => issuedClient cl r)).cl j).invocations = (net.cl j).invocations := by
   by_cases hj : j = c <;> simp [Net.upd_cl, hj, issuedClient]
 
+theorem issued_late (net : Net V) (c : Nat) (r : CallRec V) (j : Nat) :
+    ((net.upd c (fun cl => issuedClient cl r)).cl j).late = (net.cl j).late := by
+  by_cases hj : j = c <;> simp [Net.upd_cl, hj, issuedClient]
+
+theorem issued_pending (net : Net V) (c : Nat) (r : CallRec V) (j : Nat) :
+    ((net.upd c (fun cl => issuedClient cl r)).cl j).pending =
+      if j = c then pInsert (net.cl j).pending r.serial r.retSig else (net.cl j).pending := by
+  by_cases hj : j = c <;> simp [Net.upd_cl, hj, issuedClient]
+
 theorem issued_issued (net : Net V) (c : Nat) (r : CallRec V) (j : Nat) :
     ((net.upd c (fun cl => issuedClient cl r)).cl j).issued =
       if j = c then (net.cl j).issued ++ [r] else (net.cl j).issued := by
@@ -109,7 +118,7 @@ theorem Inv.issued (inv : Inv w net) (hc : c < net.n) (hr : r.serial = (net.cl c
       { stages net a r' with callUp := (stages net a r').callUp +
           (if a = c ∧ isCall r'.serial (callMsg none r) = true then 1 else 0) } := by
     intro a r'
-    simp only [stages, issued_up, issued_down, issued_exec, issued_completions, Net.upd_dropped,
+    simp only [stages, issued_up, issued_down, issued_exec, issued_completions, issued_late, Net.upd_dropped,
       countP_ite_snoc]
     congr 1
     simp [callMsg, isReplyTo]
@@ -188,6 +197,30 @@ theorem Inv.issued (inv : Inv w net) (hc : c < net.n) (hr : r.serial = (net.cl c
     · rw [ha, hr']
       simp only [Net.upd_cl_same, issuedClient]
       rw [pLookup_insert, if_pos rfl]
+  · -- pend_inv
+    intro a s v hp
+    rw [issued_pending] at hp
+    rw [issued_completions]
+    by_cases ha : a = c
+    · simp only [ha, if_true] at hp
+      rw [pLookup_insert] at hp
+      by_cases hs : s = r.serial
+      · simp only [hs, if_true, Option.some.injEq] at hp
+        refine ⟨r, ?_, hs.symm, hp.symm, ?_⟩
+        · rw [issued_issued, ha]; simp
+        · rw [ha, hs]; exact inv.no_compl fresh
+      · simp only [hs, if_false] at hp
+        obtain ⟨r0, hr0, h1, h2, h3⟩ := inv.pend_inv c s v hp
+        refine ⟨r0, ?_, h1, h2, by rw [ha]; exact h3⟩
+        rw [issued_issued, ha]; simp [hr0]
+    · simp only [ha, if_false] at hp
+      obtain ⟨r0, hr0, h1, h2, h3⟩ := inv.pend_inv a s v hp
+      refine ⟨r0, ?_, h1, h2, h3⟩
+      rw [issued_issued]; simp [ha, hr0]
+  · intro a s
+    rw [issued_completions]; exact inv.compl_le a s
+  · intro a s hs
+    rw [issued_late] at hs; rw [issued_completions]; exact inv.late_ok a s hs
   · -- tok
     intro a r' h
     rcases iss a r' h with g | ⟨ha, hr'⟩
@@ -203,8 +236,9 @@ theorem Inv.issued (inv : Inv w net) (hc : c < net.n) (hr : r.serial = (net.cl c
       have z4 := inv.no_exec r.dest fr
       have z5 := inv.no_replyTo r.dest fr
       have z6 := inv.no_reply fr
-      have z7 := inv.no_compl fr
-      simp only [Stages.total, stages, z1, z2, z3, z4, z5, z6, z7, callMsg, isCall, beq_self_eq_true,
+      have z7 := inv.no_complReply fr
+      have z8 := inv.no_late fr
+      simp only [Stages.total, stages, z1, z2, z3, z4, z5, z6, z7, z8, callMsg, isCall, beq_self_eq_true,
         and_self, if_true]
   · -- ans_cnt
     intro a r' h
@@ -216,9 +250,10 @@ theorem Inv.issued (inv : Inv w net) (hc : c < net.n) (hr : r.serial = (net.cl c
       have fr : ∀ x, x ∈ (net.cl c).issued → x.serial ≠ r.serial := fresh
       have z5 := inv.no_replyTo r.dest fr
       have z6 := inv.no_reply fr
-      have z7 := inv.no_compl fr
+      have z7 := inv.no_complReply fr
       have z8 := inv.no_ans r.dest fr
-      simp only [answersFor, stages, z5, z6, z7, z8]
+      have z9 := inv.no_late fr
+      simp only [answersFor, stages, z5, z6, z7, z8, z9]
   · -- inv_cnt
     intro a r' h
     rw [invf, resf]
